@@ -601,6 +601,67 @@ func (f *SQLFormatter) formatJoin(join *ast.JoinClause) error {
 }
 
 // formatExpression formats SQL expressions
+// Operator precedence levels of the expression grammar (higher binds tighter);
+// they decide where an operand must be parenthesized so that the formatted
+// text parses back to the same tree.
+const (
+	precOr         = 1
+	precAnd        = 2
+	precNot        = 3
+	precComparison = 4
+	precConcat     = 5
+	precAdditive   = 6
+	precMultiply   = 7
+	precPostfix    = 8
+	precPrimary    = 9
+)
+
+func binaryOperatorPrecedence(op string) int {
+	switch strings.ToUpper(op) {
+	case "OR":
+		return precOr
+	case "AND":
+		return precAnd
+	case "=", "<>", "!=", "<", "<=", ">", ">=", "IS NULL", "IS NOT NULL",
+		"LIKE", "ILIKE", "SIMILAR TO", "REGEXP", "RLIKE", "~", "~*", "!~", "!~*":
+		return precComparison
+	case "||":
+		return precConcat
+	case "+", "-":
+		return precAdditive
+	case "*", "/", "%":
+		return precMultiply
+	}
+	return precPostfix
+}
+
+func exprPrecedence(e ast.Expression) int {
+	switch v := e.(type) {
+	case *ast.BinaryExpression:
+		return binaryOperatorPrecedence(v.Operator)
+	case *ast.UnaryExpression:
+		if v.Operator == ast.Not {
+			return precNot
+		}
+		return precMultiply
+	case *ast.BetweenExpression, *ast.InExpression, *ast.AnyExpression, *ast.AllExpression:
+		return precComparison
+	}
+	return precPrimary
+}
+
+// formatOperand formats an operand, in parentheses when its own operator binds
+// less tightly than min.
+func (f *SQLFormatter) formatOperand(expr ast.Expression, min int) error {
+	if expr != nil && exprPrecedence(expr) < min {
+		f.builder.WriteString("(")
+		err := f.formatExpression(expr)
+		f.builder.WriteString(")")
+		return err
+	}
+	return f.formatExpression(expr)
+}
+
 func (f *SQLFormatter) formatExpression(expr ast.Expression) error {
 	if expr == nil {
 		return nil // an absent optional operand prints as nothing instead of crashing
@@ -653,7 +714,7 @@ func (f *SQLFormatter) formatExpression(expr ast.Expression) error {
 	case *ast.BinaryExpression:
 		// Handle IS NULL / IS NOT NULL specially
 		if e.Operator == "IS NULL" {
-			if err := f.formatExpression(e.Left); err != nil {
+			if err := f.formatOperand(e.Left, precConcat); err != nil {
 				return err
 			}
 			if e.Not {
@@ -665,7 +726,7 @@ func (f *SQLFormatter) formatExpression(expr ast.Expression) error {
 		}
 		// Handle LIKE operator
 		if e.Operator == "LIKE" {
-			if err := f.formatExpression(e.Left); err != nil {
+			if err := f.formatOperand(e.Left, precConcat); err != nil {
 				return err
 			}
 			if e.Not {
@@ -673,17 +734,27 @@ func (f *SQLFormatter) formatExpression(expr ast.Expression) error {
 			} else {
 				f.builder.WriteString(" LIKE ")
 			}
-			if err := f.formatExpression(e.Right); err != nil {
+			if err := f.formatOperand(e.Right, precConcat); err != nil {
 				return err
 			}
 			return nil
 		}
-		// Standard binary expression
-		if err := f.formatExpression(e.Left); err != nil {
+		// Standard binary expression: the left operand of a left-associative
+		// operator may be of the same level, the right one must bind tighter;
+		// comparisons take concatenation-level operands on both sides.
+		level := binaryOperatorPrecedence(e.Operator)
+		leftMin, rightMin := level, level+1
+		if level == precComparison {
+			leftMin, rightMin = precConcat, precConcat
+		}
+		if level == precPostfix {
+			rightMin = precPrimary
+		}
+		if err := f.formatOperand(e.Left, leftMin); err != nil {
 			return err
 		}
 		f.builder.WriteString(" " + e.Operator + " ")
-		if err := f.formatExpression(e.Right); err != nil {
+		if err := f.formatOperand(e.Right, rightMin); err != nil {
 			return err
 		}
 	case *ast.FunctionCall:
@@ -784,7 +855,7 @@ func (f *SQLFormatter) formatExpression(expr ast.Expression) error {
 		f.writeKeyword("END")
 	case *ast.BetweenExpression:
 		// Handle BETWEEN expr AND expr
-		if err := f.formatExpression(e.Expr); err != nil {
+		if err := f.formatOperand(e.Expr, precConcat); err != nil {
 			return err
 		}
 		if e.Not {
@@ -795,18 +866,18 @@ func (f *SQLFormatter) formatExpression(expr ast.Expression) error {
 			f.writeKeyword("BETWEEN")
 		}
 		f.builder.WriteString(" ")
-		if err := f.formatExpression(e.Lower); err != nil {
+		if err := f.formatOperand(e.Lower, precConcat); err != nil {
 			return err
 		}
 		f.builder.WriteString(" ")
 		f.writeKeyword("AND")
 		f.builder.WriteString(" ")
-		if err := f.formatExpression(e.Upper); err != nil {
+		if err := f.formatOperand(e.Upper, precConcat); err != nil {
 			return err
 		}
 	case *ast.InExpression:
 		// Handle IN (values) or IN (subquery)
-		if err := f.formatExpression(e.Expr); err != nil {
+		if err := f.formatOperand(e.Expr, precConcat); err != nil {
 			return err
 		}
 		if e.Not {
@@ -851,8 +922,12 @@ func (f *SQLFormatter) formatExpression(expr ast.Expression) error {
 	case *ast.UnaryExpression:
 		// Handle NOT expr, - expr, etc.
 		f.builder.WriteString(e.Operator.String())
-		f.builder.WriteString(" ")
-		if err := f.formatExpression(e.Expr); err != nil {
+		if e.Operator == ast.Not {
+			f.builder.WriteString(" ")
+			if err := f.formatOperand(e.Expr, precComparison); err != nil {
+				return err
+			}
+		} else if err := f.formatOperand(e.Expr, precPostfix); err != nil {
 			return err
 		}
 	case *ast.AliasedExpression:
